@@ -5,7 +5,13 @@ A block holds 1-6 rules over one generated engine: valid rules, and rules that p
 one-error injections of the C16 stream: unknown variable / term / hedge, missing `is`, unbalanced parentheses, ...).  Some
 rule objects were loaded with another text before (their old state must not survive).  Compared: `RuntimeError` iff some
 rule fails (any other exception is a mismatch), which rules report `is_loaded()` afterwards, the rules named in the
-message and their order, the exception class of every failing rule (loaded on its own afterwards)."""
+message and their order, the exception class of every failing rule (loaded on its own afterwards).
+
+Call `rule_load` (drawn after the block calls): every rule object is loaded by `rule.load(engine)` called on the rule
+itself, in order - no rule block unloads it first.  Most of these objects were loaded with another (valid) text before and
+got their present text through `rule.parse` / `rule.text =`: a text that does not load must be rejected and leave the rule
+unloaded whatever the object held before (`never leaves a rule reporting loaded after a failed load`); the class of every
+failure is also taken from a FRESH rule object with the same text."""
 from __future__ import annotations
 
 import numpy as np
@@ -64,6 +70,33 @@ def gen_cases(ctx, h):
             continue
         n += 1
         yield {"stream": STREAM, "vars": vars_, "rules": rules, "call": rng.choice(["load_rules", "load_rules", "reload_rules"])}
+    # Rule.load called on rule objects with a history (after the block calls: their cases are unchanged for a seed)
+    n = 0
+    while n < ctx.scale(150, 1500):
+        base = h.make_valid(rng)
+        vars_ = base["vars"]
+        rules = []
+        for _ in range(rng.choice([1, 2, 3])):
+            toks = valid_tokens(rng, h, vars_)
+            kind = "valid"
+            if rng.random() < 0.6:
+                b2 = dict(base, tokens=toks)
+                if rng.random() < 0.6:
+                    how = rng.choice(h.INJECTIONS)
+                    t = h.inject(rng, b2, how)
+                else:
+                    how, t = h.mutate(rng, b2)
+                if t is not None:
+                    toks, kind = t, how
+            text = h.spell(toks, rng)
+            if not parses(text):
+                continue
+            prior = h.spell(valid_tokens(rng, h, vars_)) if rng.random() < 0.8 else None
+            rules.append({"text": text, "kind": kind, "prior": prior, "via": rng.choice(["parse", "text"])})
+        if not rules:
+            continue
+        n += 1
+        yield {"stream": STREAM, "vars": vars_, "rules": rules, "call": "rule_load"}
 
 
 def observe(case, h):
@@ -72,7 +105,10 @@ def observe(case, h):
     for r in case["rules"]:
         if r["prior"]:
             rule = fl.Rule.create(r["prior"], engine)
-            rule.parse(r["text"])
+            if r.get("via") == "text":
+                rule.text = r["text"]
+            else:
+                rule.parse(r["text"])
         else:
             rule = fl.Rule.create(r["text"])
         block.rules.append(rule)
@@ -80,7 +116,18 @@ def observe(case, h):
     out = {"raised": None, "message": None}
     try:
         with np.errstate(all="ignore"):
-            getattr(block, case["call"])(engine)
+            if case["call"] == "rule_load":
+                # every rule loaded on its own; the failures are collected the way RuleBlock.load_rules reports them
+                failed = []
+                for rule in block.rules:
+                    try:
+                        rule.load(engine)
+                    except Exception as ex:  # noqa: BLE001
+                        failed.append(f"['{rule}']: {ex}")
+                if failed:
+                    raise RuntimeError("failed to load the following rules:\n" + "\n".join(failed))
+            else:
+                getattr(block, case["call"])(engine)
     except RuntimeError as ex:
         out["raised"] = "RuntimeError"
         out["message"] = str(ex)
@@ -97,6 +144,14 @@ def observe(case, h):
         except Exception as ex:  # noqa: BLE001
             kinds.append([str(i), h.errkind(ex)])
     out["kinds"] = kinds
+    # the class of the failure of every TEXT: a fresh rule object, never loaded before
+    fresh = []
+    for i, r in enumerate(case["rules"]):
+        try:
+            fl.Rule.create(r["text"], engine)
+        except Exception as ex:  # noqa: BLE001
+            fresh.append([str(i), h.errkind(ex)])
+    out["fresh"] = fresh
     return out
 
 
@@ -118,6 +173,8 @@ def compare(case, got, model):
         return f"is_loaded() afterwards {got['loaded']}, model {loaded}"
     if got["kinds"] != [[f[0], f[1]] for f in fails]:
         return f"failing rules (position, class) {got['kinds']}, model {fails}"
+    if got["fresh"] != [[f[0], f[1]] for f in fails]:
+        return f"failing texts on fresh rule objects (position, class) {got['fresh']}, model {fails}"
     if got["raised"]:
         # one entry per failing rule, in the order of the rules
         pos, msg = 0, got["message"]
@@ -146,6 +203,13 @@ def oracle(case, h):
     if bad:
         return False, f"internal error when loading rule {bad[0][0]} '{case['rules'][int(bad[0][0])]['text']}': {bad[0][1]}"
     failing = {int(k[0]) for k in got["kinds"]}
+    # the text decides, not the object: a text that a fresh rule object rejects is never accepted by an object with a history
+    for i, k in got["fresh"]:
+        if got["loaded"][int(i)]:
+            r = case["rules"][int(i)]
+            return False, (f"rule {i} '{r['text']}' does not load ({k} on a fresh rule object) but the rule object"
+                           f"{' (loaded with ' + repr(r['prior']) + ' before)' if r['prior'] else ''} reports is_loaded() "
+                           f"after {case['call']}")
     for i, ld in enumerate(got["loaded"]):
         if ld and i in failing:
             return False, f"rule {i} '{case['rules'][i]['text']}' reports is_loaded() although its load fails"
